@@ -102,9 +102,9 @@ pub fn c18_l1_sender_after_sender() {
     kani::cover!(first.is_err(), "earlier session failed");
 }
 
-//@h name=c18_l1_receiver_after_ops tier=quick mode=func timeout=2400 desc="history independence of receiver setup and open: after another session's setup_receiver, a failed open and a successful open on that other context, a fresh setup_receiver yields exactly the RFC 9180 schedule of its own arguments and starts at position 0" bounds="both sessions' keys/enc symbolic; info 0..=1 B; Base mode; model suite; unwind 34"
+//@h name=c18_l1_receiver_after_ops tier=quick mode=func timeout=2400 desc="history independence of receiver setup and open: after another session's setup_receiver, a failed open and a successful open on that other context, a fresh setup_receiver yields exactly the RFC 9180 schedule of its own arguments and starts at position 0" bounds="both sessions' keys/enc symbolic; info 0..=1 B; Base mode; model suite; unwind 20"
 #[kani::proof]
-#[kani::unwind(34)]
+#[kani::unwind(20)]
 #[kani::stub(zeroize::optimization_barrier, noop_barrier)]
 pub fn c18_l1_receiver_after_ops() {
     let sk1: u16 = kani::any();
@@ -142,9 +142,9 @@ pub fn c18_l1_receiver_after_ops() {
 
 // ---- L2: coexisting contexts ---------------------------------------------------------------------
 
-//@h name=c18_l2_contexts_independent tier=quick mode=func timeout=2400 desc="independence of coexisting contexts: two sender contexts with arbitrary states; sealing on one leaves the other's position, next nonce and export value untouched, and the two orders (A then B, B then A) produce identical nonces, outputs and final states - the sequential core of 'parallel == sequential'" bounds="both contexts' key/base nonce/exporter secret/seq symbolic; 2-byte messages; L=3 exports; unwind 34"
+//@h name=c18_l2_contexts_independent tier=quick mode=func timeout=2400 desc="independence of coexisting contexts: two sender contexts with arbitrary states; sealing on one leaves the other's position, next nonce and export value untouched, and the two orders (A then B, B then A) produce identical nonces, outputs and final states - the sequential core of 'parallel == sequential'" bounds="both contexts' key/base nonce/exporter secret/seq symbolic; 2-byte messages; L=3 exports; unwind 20"
 #[kani::proof]
-#[kani::unwind(34)]
+#[kani::unwind(20)]
 #[kani::stub(zeroize::optimization_barrier, noop_barrier)]
 pub fn c18_l2_contexts_independent() {
     let ka: [u8; 16] = kani::any();
